@@ -439,7 +439,14 @@ def ratomic_ids_reserved_atomically(ctx):
     request_ids_reserved_atomically(ctx, "C12.ATOMIC")
 
 
-RULES = [ratomic_ids_reserved_atomically, r1_sized_by_request, r2_slot_index, r3_range_and_zip, r4_counts, r5_allocator, r6_exact_id_number, r7_batch_key_is_whole_range, r8_frontend_keeps_positions, r9_slot_vector_travels_untouched] + BORROWED
+
+def rkeys_manager_keys_not_derived(ctx):
+    """a pending batch is found through the ids of the reply at hand, never by scanning for `the oldest` / `the only` one"""
+    from .common import manager_keys_not_derived
+    manager_keys_not_derived(ctx, "C12.KEYS")
+
+
+RULES = [rkeys_manager_keys_not_derived, ratomic_ids_reserved_atomically, r1_sized_by_request, r2_slot_index, r3_range_and_zip, r4_counts, r5_allocator, r6_exact_id_number, r7_batch_key_is_whole_range, r8_frontend_keeps_positions, r9_slot_vector_travels_untouched] + BORROWED
 
 LEVEL_TEXT = (
     "Structural necessary conditions for positional batch results, decided from the type-checked program for both "
